@@ -1,11 +1,13 @@
 (* MODEL side of the C05 ops `tot.<entry> <bytes> [n]` of goexec/total.go.
 
    goexec runs one entry group of the REAL library (decoder, then every getter / printer / re-encoder of a
-   successful result) and answers  [0 u] returned / [2 xSITE] panicked / [3] hang.
+   successful result) and answers  [0 u e] returned / [2 xSITE] panicked / [3] hang; e = 1 when the group's PRIMARY
+   decoder call returned a non-nil error (which call that is: the e_* functions below; 0 for a group without one).
    Here the same group is run over the MODELS, call by call in the order of total.go, with the argument prepared
    in the same way (pkt_of = totPkt: the bytes copied into a zero 188-byte array; the integer selects ops), and
    the answer is the model's outcome class:
-       [0 1]   every modelled call of the group returned Ok / Err (a value model never modifies its input)
+       [0 1 e] every modelled call of the group returned Ok / Err (a value model never modifies its input);
+               e = 1 when the model of the primary decoder call returned Err: WHICH inputs are rejected is compared
        [2 x]   some modelled call returned Panic  (Go: the first panic ends the group)
        [3]     some modelled call returned Diverge
    Calls whose model is a plain total Gallina function (no Res type: header getters, CC helpers, flag
@@ -41,12 +43,18 @@ Definition reply (c : cls) : val :=
   | CDiverge => VL [VI 3%Z]
   end.
 
-(* tot(name, f): f gets the bytes and the optional integer (0 when absent).  A VB that is not a byte string
-   cannot come over the wire; it is refused so that the theorems of C05Tot.v need no side condition. *)
-Definition group (f : bytes -> Z -> cls) (a : list val) : val :=
+(* the reply with the accept / reject bit of the primary decoder *)
+Definition reply_e (c : cls) (e : bool) : val :=
+  match c with COk => VL [VI 0%Z; VI 1%Z; vbool e] | _ => reply c end.
+Definition is_err {A} (r : Res A) : bool := match r with Err _ => true | _ => false end.
+Definition e_none (b : bytes) (n : Z) : bool := false.
+
+(* tot(name, f): f gets the bytes and the optional integer (0 when absent); pe is the accept / reject bit.  A VB that
+   is not a byte string cannot come over the wire; it is refused so that the theorems of C05Tot.v need no side condition. *)
+Definition group (f : bytes -> Z -> cls) (pe : bytes -> Z -> bool) (a : list val) : val :=
   match a with
-  | [VB b] => if is_bytesb b then reply (f b 0%Z) else vbad
-  | [VB b; VI n] => if is_bytesb b then reply (f b n) else vbad
+  | [VB b] => if is_bytesb b then reply_e (f b 0%Z) (pe b 0%Z) else vbad
+  | [VB b; VI n] => if is_bytesb b then reply_e (f b n) (pe b n) else vbad
   | _ => vbad
   end.
 
@@ -329,27 +337,70 @@ Definition g_pkt_writer (b : bytes) (n : Z) : cls :=
   let r3 := PacketWriter.read_from (tot_writer n k2) PacketWriter.pkt0 (reader_script b) in
   cl r1 >> cl r2 >> cl r3.
 
+(* ------------------------------------------------------------------ the accept / reject bit of every group:
+   e = 1 iff the PRIMARY decoder call of the group returned a non-nil error (goexec: totE(err) at the same call) *)
+(* pkt.read: packet.Payload(p) *)
+Definition e_pkt_read (b : bytes) (n : Z) : bool := is_err (Packet.Payload_fn (pkt_of b)).
+(* pkt.setpayload: p.Payload() after the SetPayload *)
+Definition e_pkt_setpayload (b : bytes) (n : Z) : bool :=
+  let p := pkt_of b in is_err (Packet.Payload_m (fst (Packet.SetPayload_m p (ramp (payload_len p n) 0)))).
+(* pkt.setafc: p.Payload() after the SetAdaptationFieldControl *)
+Definition e_pkt_setafc (b : bytes) (n : Z) : bool :=
+  is_err (Packet.Payload_m (fst (Packet.SetAdaptationFieldControl (pkt_of b) (Z.to_N (Z.land n 3))))).
+(* af.getters / af.setters: p.AdaptationField() (fails exactly when the flag is missing) *)
+Definition e_af_getters (b : bytes) (n : Z) : bool :=
+  let p0 := pkt_of b in
+  negb (AF.get_bit (if (Z.land n 1 =? 1)%Z then or_byte p0 3 32 else p0) 3 32).
+Definition e_af_setters (b : bytes) (n : Z) : bool :=
+  let p0 := pkt_of b in
+  negb (AF.get_bit (if (Z.rem (Z.quot n 20) 2 =? 1)%Z then or_byte p0 3 32 else p0) 3 32).
+Definition e_psi_accessors (b : bytes) (n : Z) : bool := is_err (Psi.table_header_from_bytes b).
+Definition e_psi_pat (b : bytes) (n : Z) : bool := is_err (Pat.new_pat b).
+Definition e_psi_pmt (b : bytes) (n : Z) : bool := is_err (Pmt.new_pmt b).
+Definition e_psi_done (b : bytes) (n : Z) : bool := is_err (Pmt.done_func b).
+Definition e_psi_crc (b : bytes) (n : Z) : bool := is_err (Pmt.extract_crc b).
+(* psi.filter: the error of FilterPMTPacketsToPids: a parse error, or the list of missing PIDs *)
+Definition e_psi_filter (b : bytes) (n : Z) : bool :=
+  let pk := match chunks b with [] => [pkt_of b] | l => l end in
+  match filter_pids pk n with
+  | Ok want => match Pmt.filter_pmt_packets pk want with Err _ => true | Ok (_, Some _) => true | _ => false end
+  | _ => false
+  end.
+Definition e_psi_readpat (b : bytes) (n : Z) : bool :=
+  let tail := if (Nat.modulo (List.length b) 188 =? 0)%nat then E.EOF else E.UnexpectedEOF in
+  is_err (Pat.read_pat (map Pat.RFull (chunks b) ++ [Pat.RFail tail])).
+Definition e_psi_readpmt (b : bytes) (n : Z) : bool := is_err (Pmt.read_pmt b (readpmt_pid b n)).
+Definition e_pes_new (b : bytes) (n : Z) : bool := is_err (Pes.new_pes_header b).
+Definition e_ebp_read (b : bytes) (n : Z) : bool := is_err (Ebp.ReadEncoderBoundaryPoint true b).
+Definition e_scte_new (b : bytes) (n : Z) : bool := is_err (Scte.new_scte35 b).
+(* pkt.sync: the error of Sync (the model returns it next to the offset) *)
+Definition e_pkt_sync (b : bytes) (n : Z) : bool :=
+  match Bufio.sync_raw (Z.to_nat (16 + Z.rem n 4096)) (reader_script b) with
+  | Ok (_, Some _, _) => true | Err _ => true | _ => false end.
+
+(* the 21 entry groups: name, the calls, the accept / reject bit *)
 Open Scope string_scope.
-Definition ops : list op := [
-  ("tot.pkt.read", group g_pkt_read);
-  ("tot.pkt.setpayload", group g_pkt_setpayload);
-  ("tot.pkt.setpayloadfn", group g_pkt_setpayloadfn);
-  ("tot.pkt.setafc", group g_pkt_setafc);
-  ("tot.af.getters", group g_af_getters);
-  ("tot.af.setters", group g_af_setters);
-  ("tot.affn", group g_affn);
-  ("tot.psi.accessors", group g_psi_accessors);
-  ("tot.psi.pat", group g_psi_pat);
-  ("tot.psi.pmt", group g_psi_pmt);
-  ("tot.psi.done", group g_psi_done);
-  ("tot.psi.crc", group g_psi_crc);
-  ("tot.psi.filter", group g_psi_filter);
-  ("tot.psi.readpat", group g_psi_readpat);
-  ("tot.psi.readpmt", group g_psi_readpmt);
-  ("tot.pes.new", group g_pes_new);
-  ("tot.ebp.read", group g_ebp_read);
-  ("tot.scte.new", group g_scte_new);
-  ("tot.pkt.sync", group g_pkt_sync);
-  ("tot.pkt.acc", group g_pkt_acc);
-  ("tot.pkt.writer", group g_pkt_writer)
+Definition groups : list (string * (bytes -> Z -> cls) * (bytes -> Z -> bool)) := [
+  ("tot.pkt.read", g_pkt_read, e_pkt_read);
+  ("tot.pkt.setpayload", g_pkt_setpayload, e_pkt_setpayload);
+  ("tot.pkt.setpayloadfn", g_pkt_setpayloadfn, e_none);
+  ("tot.pkt.setafc", g_pkt_setafc, e_pkt_setafc);
+  ("tot.af.getters", g_af_getters, e_af_getters);
+  ("tot.af.setters", g_af_setters, e_af_setters);
+  ("tot.affn", g_affn, e_none);
+  ("tot.psi.accessors", g_psi_accessors, e_psi_accessors);
+  ("tot.psi.pat", g_psi_pat, e_psi_pat);
+  ("tot.psi.pmt", g_psi_pmt, e_psi_pmt);
+  ("tot.psi.done", g_psi_done, e_psi_done);
+  ("tot.psi.crc", g_psi_crc, e_psi_crc);
+  ("tot.psi.filter", g_psi_filter, e_psi_filter);
+  ("tot.psi.readpat", g_psi_readpat, e_psi_readpat);
+  ("tot.psi.readpmt", g_psi_readpmt, e_psi_readpmt);
+  ("tot.pes.new", g_pes_new, e_pes_new);
+  ("tot.ebp.read", g_ebp_read, e_ebp_read);
+  ("tot.scte.new", g_scte_new, e_scte_new);
+  ("tot.pkt.sync", g_pkt_sync, e_pkt_sync);
+  ("tot.pkt.acc", g_pkt_acc, e_none);
+  ("tot.pkt.writer", g_pkt_writer, e_none)
 ].
+Definition ops : list op := map (fun g => (fst (fst g), group (snd (fst g)) (snd g))) groups.
